@@ -3,7 +3,7 @@ import vlib
 import checks.sessions_common as sc
 
 
-def run(prop, tier, seed, parts):
+def run(prop, tier, seed, parts, extra=None):
     v = vlib.Verdict(prop, tier, seed, "model_checking")
     drv = vlib.build_driver()
     mc = vlib.tlc("MC_Routes", "MC_Routes_3.cfg" if tier == "quick" else (vlib.SPEC / "MC_Routes.cfg").read_text().replace("MaxRoutes = 2", "MaxRoutes = 4"),
@@ -30,13 +30,21 @@ def run(prop, tier, seed, parts):
                    "serve histories send origin-/absolute-form requests with 8 classes of Authorization / Proxy-Authorization headers, mixed-case hosts with port / trailing dot, through real keep-alive backend connections; "
                    "non-trivial = HTTP requests, table mutations and 1/20 of the lookups",
               driver_stats=stats)
+    if extra and ok:
+        extra(v, drv, d, tier, seed)
     v.assumptions += ["component level: the real router / reverse proxy / muxer objects of pkg/util/vhost and pkg/util/tcpmux are driven directly (no frps around them)",
-                      "h2c and the client-side plugins (http_proxy, socks5, static_file) and web APIs are not driven by this check"]
+                      "h2c is not driven by this check" + ("" if extra else "; the client-side plugins (http_proxy, socks5, static_file) and web APIs are driven by C07's check")]
     v.finish()
 
 
 def replay(prop, path):
     v = vlib.Verdict(prop, "quick", 0, "model_checking")
+    if any(e.get("ev", "").startswith("svc.") for e in vlib.read_ndjson(path)):
+        sc.validate(v, "Trace_Services", (vlib.SPEC / "Trace_Services.cfg").read_text(), path, "replay")
+        v.add_cov(states=1, transitions=1)
+        v.sample({"replayed": str(path)})
+        v.finish()
+        return
     sc.validate(v, "Trace_Routes", (vlib.SPEC / "Trace_Routes.cfg").read_text(), path, "replay")
     v.add_cov(states=1, transitions=1)
     v.sample({"replayed": str(path)})
